@@ -82,10 +82,11 @@ structure Placement where
   path : Str
   member : Option Str
   sec : Str
+  wild : Bool      -- the statement names `sec*` (the segment's `wildcard_sections`) or exactly `sec`
   deriving DecidableEq
 
 def Placement.show (p : Placement) : Str :=
-  p.group ++ c!" <- " ++ p.path ++ c!":" ++ (p.member.getD []) ++ c!"(" ++ p.sec ++ c!")"
+  p.group ++ c!" <- " ++ p.path ++ c!":" ++ (p.member.getD []) ++ c!"(" ++ p.sec ++ (if p.wild then c!"*" else []) ++ c!")"
 
 /-- the items of a segment under a given base directory. -/
 def segItems (d : Document) (o : Opts) (seg : Segment) (withDir : Bool) : List Item :=
@@ -106,7 +107,7 @@ def expected (d : Document) (o : Opts) (seg : Segment) : List Placement :=
     match it with
     | .leaf l => conf.filterMap fun c =>
         match locOf seg l.order fuel c with
-        | some g => some ⟨g, l.path, l.member, c⟩
+        | some g => some ⟨g, l.path, l.member, c, seg.wildcardSections⟩
         | none => none
     | .mark _ => []
 
@@ -138,7 +139,7 @@ def groupedInputs (startSyms : List (Str × Str)) (byOutSec : Bool) (ls : List L
 def placementsIn (startSyms : List (Str × Str)) (byOutSec : Bool) (ls : List Line) : List Placement :=
   (groupedInputs startSyms byOutSec ls).filterMap fun (gl : Str × Line) =>
     match gl.2 with
-    | .input _ p m s _ => some ⟨gl.1, p, m, s⟩
+    | .input _ p m s w => some ⟨gl.1, p, m, s, w⟩
     | _ => none
 
 def startSymsOf (st : Style) (seg : Segment) : List (Str × Str) :=
